@@ -642,10 +642,10 @@ def run(ctx):
                     "domain; a chain of model hops is the closed form; a SECOND chain of model hops returns the same "
                     "list (C08_chain_model_second_pass); the two model passes satisfy the oracle "
                     "(C08_chain_model_meets_oracle)",
-                    "string level, MicroDVD and SRT: reader model o writer model (whole documents incl. text lines) = times "
+                    "string level, MicroDVD, SRT and WebVTT (C08_vtt_roundtrip_string, C08_chain_doc_text_three_formats): reader model o writer model (whole documents incl. text lines) = times "
                     "floored, text lines unchanged (C08_mdvd_roundtrip_string, C08_srt_roundtrip_string); every chain of "
                     "SRT / MicroDVD document hops: closed-form times AND text (C08_chain_doc_text)"],
-        "correspondence_only": ["text through WebVTT, DFXP, SAMI and outside the clean-line domain", "document level of WebVTT, DFXP, SAMI "
+        "correspondence_only": ["text through DFXP, SAMI and outside the clean-line domain (WebVTT: lines with & < >)", "document level of DFXP, SAMI "
                                 "writer / reader pairs",
                                 "several languages inside one DFXP / SAMI document do not disturb each other (the set-level "
                                 "theorem converts each language on its own BY DEFINITION)",
